@@ -86,20 +86,28 @@ impl<'a, P> State<'a, P> {
     where
         T: CustomState<'a> + TidAble<'a>,
     {
-        #[derive(better_any::Tid)]
-        struct Marker<T>(PhantomData<fn() -> T>);
-        impl<'a, T: TidAble<'a>> CustomState<'a> for Marker<T> {}
+        // Remember the scope `T` was taken from by its distance to the outermost registry,
+        // which `f` can't change, as it only has access to `&mut Self`.
+        let levels = |registry: &StateRegistry<'a>| {
+            std::iter::successors(registry.parent(), |registry| registry.parent()).count()
+        };
 
         let registry_with_t = self.find_mut::<T>()?;
-        registry_with_t.insert(Marker::<T>(PhantomData));
+        let level = levels(registry_with_t);
         let mut t = registry_with_t.remove::<T>()?;
-        f(&mut t, self)?;
 
-        let state_with_t = self.find_mut::<Marker<T>>()?;
-        state_with_t.insert(t);
-        state_with_t.remove::<Marker<T>>()?;
+        let result = f(&mut t, self);
 
-        Ok(())
+        // Put `T` back into the scope it came from, regardless of whether `f` failed.
+        let mut registry_with_t = &mut self.registry;
+        for _ in level..levels(registry_with_t) {
+            registry_with_t = registry_with_t
+                .parent_mut()
+                .expect("the scope `T` was taken from should still exist");
+        }
+        registry_with_t.insert(t);
+
+        result
     }
 }
 
